@@ -173,6 +173,31 @@ OutcomeDev(dev, kind, m) ==
             ELSE [save |-> "ok"] @@ DecodeCatalog(dev, Store(kv), m)
 Outcome(kind, m) == OutcomeDev(Dev, kind, m)
 
+\* --------------------------------------------------------------------------- a catalog holds many records
+\* The swamp is a map from key to treasure.  A SIBLING record - the same model under another key ("k2"; the
+\* driver makes it differ from the main key only by white space or case) - is saved first, then the model
+\* itself; then both are read by their own keys.  Keys are opaque strings: nothing on the way may normalise
+\* them, so the two records neither collide nor change their keys.
+SibKey == "k2"
+Sib(m) == [m EXCEPT ![1].val = SibKey]
+SaveInto(st, kv) == [k \in DOMAIN st \cup {kv.key} |-> IF k = kv.key THEN Store(kv) ELSE st[k]]
+ReadFrom(dev, st, key, m) ==
+  IF key \in DOMAIN st THEN [save |-> "ok"] @@ DecodeCatalog(dev, st[key], m)
+  ELSE [save |-> "ok", read |-> "err", out |-> <<>>]                       \* key not found
+PairOutcome(dev, m) ==
+  LET a == EncodeCatalog(dev, Sib(m))
+      b == EncodeCatalog(dev, m)
+      st == SaveInto(SaveInto(<<>>, a), b)
+  IN IF a.err \/ b.err THEN [main |-> [save |-> "err"] @@ NoRead, sib |-> [save |-> "err"] @@ NoRead]
+     ELSE [main |-> ReadFrom(dev, st, "k", m), sib |-> ReadFrom(dev, st, SibKey, Sib(m))]
+\* both records read back as if they had been alone (the sibling's key token is "k2" in its own result)
+RecordsIndependentFor(m) ==
+  LET p == PairOutcome(Dev, m)
+      alone == OutcomeDev(Dev, "catalog", m)
+  IN /\ p.main = alone
+     /\ p.sib.save = alone.save /\ p.sib.read = alone.read
+     /\ alone.read = "ok" => p.sib.out = [i \in DOMAIN m |-> IF alone.out[i] = "k" THEN SibKey ELSE alone.out[i]]
+
 \* what the property demands: the model that was saved (values the documentation rejects excepted)
 Rejected(kind, m) ==
   \/ kind = "catalog" /\ \E i \in DOMAIN m : m[i].head \in TimeSlots /\ m[i].om = 0 /\ Zero(m[i].val)
